@@ -285,11 +285,16 @@ class Interp:
         if type(p) is SymIdx:
             et = self.subtype(t, 0)
             out = list(v)
-            for k in range(p.n):
-                old = v[p.base + k]
-                new = self.setp(old, path[1:], nv, et)
-                c = (p.idx == bvval(k, p.idx.size()))
-                out[p.base + k] = self.merge_value(c, new, old, et)
+            oldmi = self.merge_ints
+            self.merge_ints = True
+            try:
+                for k in range(p.n):
+                    old = v[p.base + k]
+                    new = self.setp(old, path[1:], nv, et)
+                    c = (p.idx == bvval(k, p.idx.size()))
+                    out[p.base + k] = self.merge_value(c, new, old, et)
+            finally:
+                self.merge_ints = oldmi
             return type(v)(out)
         st = self.subtype(t, p) if t is not None else None
         return type(v)(v[:p] + (self.setp(v[p], path[1:], nv, st),) + v[p + 1:])
@@ -354,6 +359,14 @@ class Interp:
     # ------------------------------------------------------------------ symbolic selection / merging
     def select(self, cells, idx, t=None):
         """cells[idx] for a symbolic idx known to be within range"""
+        old = self.merge_ints
+        self.merge_ints = True
+        try:
+            return self._select(cells, idx, t)
+        finally:
+            self.merge_ints = old
+
+    def _select(self, cells, idx, t=None):
         n = len(cells)
         if n == 0:
             raise Unsupported('select from empty')
